@@ -368,6 +368,7 @@ func TestDriveC19(t *testing.T) {
 	shard, shards := envInt("VERIF_SHARD", 0), envInt("VERIF_SHARDS", 1)
 	rec, err := NewRecorder(out)
 	must(err)
+	rec.Sync = true // a panic in a goroutine of os/exec cannot be recovered: keep what was recorded until then
 	defer rec.Close()
 	dir := scratchDir("verif.c19.")
 	defer os.RemoveAll(dir)
